@@ -10,12 +10,22 @@ picks of disabled units (not started, finished, blocked in `join`) stutter.
 Statements carry occurrence ids, so "the same message / action" is meaningful across schedules.
 The log records, for every emitted message, its unit, occurrence, kind and *parent occurrence*
 (the action it is attributed to; for an action-start record: the parent action of the new action;
-the end message of action `o` is a child of `o` itself). -/
+the end message of action `o` is a child of `o` itself).
+
+Action objects are shared: a unit may run a block in the context of an action created by another unit
+(`ctxOf`, `withOf`).  What such a block restores when it ends is kept in the *unit's* token stack —
+nothing is kept on the Action. -/
 namespace Ctx
 
 inductive Stmt where
   | enter (o : Nat)          -- a = start_action(...); a.__enter__()     (logs the start message)
-  | exit                     -- innermost own action .__exit__()          (logs the end message)
+  | exit                     -- leave the innermost block of this unit: `.__exit__()` of an action entered with
+                             -- `enter`/`withOf` (logs its end message), or end of a `with a.context():` block
+  | create (o : Nat)         -- a = start_action(...) without entering it (logs the start message); the Action
+                             -- object becomes available to every unit under the handle `o`
+  | withOf (h : Nat)         -- `with action_h:` on an action created (by any unit) and not entered so far;
+                             -- blocks until `h` has been created
+  | ctxOf (h : Nat)          -- `with action_h.context():` on an action created by any unit; blocks until created
   | log (o : Nat)            -- log_message(...)
   | spawnThread (v : Nat)    -- threading.Thread(target=unit v).start()
   | spawnTask (v : Nat)      -- asyncio.ensure_future(unit v)
@@ -47,7 +57,8 @@ structure UState where
   started : Bool := false
   code : List Stmt := []                 -- rest of the unit's program
   ctx : Option Nat := none               -- _ACTION_CONTEXT in this unit's context
-  toks : List (Nat × Option Nat) := []   -- own entered actions with their reset tokens (old value)
+  toks : List (Nat × Option Nat × Bool) := []   -- open blocks of this unit, innermost first: action, reset token
+                                         -- (old value), and whether leaving the block finishes the action
 deriving DecidableEq, Repr
 
 structure State where
@@ -61,19 +72,28 @@ def State.emit (s : State) (r : Rec) : State := { s with log := r :: s.log }
 
 def UState.done (x : UState) : Bool := x.started && x.code.isEmpty
 
-/-- One primitive step of unit `u`; `none` = disabled (not started, finished, blocked in `join`,
-or out of domain: spawning a unit that is not a fresh, higher-numbered unit of the program). -/
+/-- has the action with handle `h` been created (its start message logged)? -/
+def created (log : List Rec) (h : Nat) : Bool := log.any (fun r => r.occ == h && r.kind == .start)
+
+/-- One primitive step of unit `u`; `none` = disabled (not started, finished, blocked in `join` or waiting
+for an action handle, or out of domain: spawning a unit that is not a fresh, higher-numbered unit of the program). -/
 def step (p : Prog) (s : State) (u : Nat) : Option State :=
   let x := s.units u
   if x.started = false then none else
   match x.code with
   | [] => none
   | .enter o :: r =>
-    some ((s.emit ⟨u, o, .start, x.ctx⟩).setUnit u { x with code := r, ctx := some o, toks := (o, x.ctx) :: x.toks })
+    some ((s.emit ⟨u, o, .start, x.ctx⟩).setUnit u { x with code := r, ctx := some o, toks := (o, x.ctx, true) :: x.toks })
   | .exit :: r =>
     match x.toks with
     | [] => some (s.setUnit u { x with code := r })
-    | (o, old) :: ts => some ((s.emit ⟨u, o, .end_, some o⟩).setUnit u { x with code := r, ctx := old, toks := ts })
+    | (o, old, true) :: ts => some ((s.emit ⟨u, o, .end_, some o⟩).setUnit u { x with code := r, ctx := old, toks := ts })
+    | (_, old, false) :: ts => some (s.setUnit u { x with code := r, ctx := old, toks := ts })
+  | .create o :: r => some ((s.emit ⟨u, o, .start, x.ctx⟩).setUnit u { x with code := r })
+  | .withOf h :: r =>
+    if created s.log h then some (s.setUnit u { x with code := r, ctx := some h, toks := (h, x.ctx, true) :: x.toks }) else none
+  | .ctxOf h :: r =>
+    if created s.log h then some (s.setUnit u { x with code := r, ctx := some h, toks := (h, x.ctx, false) :: x.toks }) else none
   | .log o :: r => some ((s.emit ⟨u, o, .msg, x.ctx⟩).setUnit u { x with code := r })
   | .spawnThread v :: r =>
     if u < v ∧ v < p.n ∧ (s.units v).started = false then
@@ -106,14 +126,18 @@ def parentOcc (log : List Rec) (k : Nat × Kind) : Option (Option Nat) :=
 /-! ## Sequential reference: the records of the depth-first run (a spawned unit runs to its end at
 the point where it is spawned). -/
 
-def denCode (p : Prog) (u : Nat) (ctx : Option Nat) (toks : List (Nat × Option Nat)) (code : List Stmt) : List Rec :=
+def denCode (p : Prog) (u : Nat) (ctx : Option Nat) (toks : List (Nat × Option Nat × Bool)) (code : List Stmt) : List Rec :=
   match code with
   | [] => []
-  | .enter o :: r => ⟨u, o, .start, ctx⟩ :: denCode p u (some o) ((o, ctx) :: toks) r
+  | .enter o :: r => ⟨u, o, .start, ctx⟩ :: denCode p u (some o) ((o, ctx, true) :: toks) r
   | .exit :: r =>
     match toks with
     | [] => denCode p u ctx [] r
-    | (o, old) :: ts => ⟨u, o, .end_, some o⟩ :: denCode p u old ts r
+    | (o, old, true) :: ts => ⟨u, o, .end_, some o⟩ :: denCode p u old ts r
+    | (_, old, false) :: ts => denCode p u old ts r
+  | .create o :: r => ⟨u, o, .start, ctx⟩ :: denCode p u ctx toks r
+  | .withOf h :: r => denCode p u (some h) ((h, ctx, true) :: toks) r
+  | .ctxOf h :: r => denCode p u (some h) ((h, ctx, false) :: toks) r
   | .log o :: r => ⟨u, o, .msg, ctx⟩ :: denCode p u ctx toks r
   | .spawnThread v :: r =>
     (if _h : u < v ∧ v < p.n then denCode p v none [] (p.code v) else []) ++ denCode p u ctx toks r
@@ -139,6 +163,9 @@ def OccUnique (p : Prog) : Prop := ((seqLog p).map Rec.key).Nodup
 def joinedB : List (Nat × Nat) → Nat → List Stmt → Bool
   | pend, _, [] => pend.isEmpty
   | pend, d, .enter _ :: r => joinedB pend (d + 1) r
+  | pend, d, .withOf _ :: r => joinedB pend (d + 1) r
+  | pend, d, .ctxOf _ :: r => joinedB pend (d + 1) r
+  | pend, d, .create _ :: r => joinedB pend d r
   | pend, d, .exit :: r => pend.all (fun e => e.2 < d) && joinedB pend (d - 1) r
   | pend, d, .log _ :: r => joinedB pend d r
   | pend, d, .spawnThread v :: r => joinedB ((v, d) :: pend) d r
